@@ -4,6 +4,9 @@ def sig(fl):
         return "op=restart part=reservation podBeforeReservation=%s" % ("yes" if e["podFirst"] > 0 else "no")
     if e.get("op") == "restart" and "order" in e:      # device part
         return "op=restart part=device order=%s" % e.get("order")
+    if "res" in e.get("obs", {}):                      # reservation part, steady-state events: C05's labels
+        from props import C05 as _c05
+        return "part=reservation " + _c05.sig(fl)
     return "op=%s kind=%s" % (e.get("op"), e.get("kind"))
 
 
@@ -26,6 +29,9 @@ CONF = {
         # device part: Device + Restart action; persistence through the real pre-bind code, rebuild through the informer handlers
         {"pkg": "pkg/scheduler/plugins/deviceshare", "test": "TestVerifC19Device", "family": "Device", "uses_script": False,
          "trace": {"module": "DeviceTrace", "cfg": "Trace.cfg"}},
+        # reservation part: Reservation + Restart; assignments persisted by the real PreBind, rebuild through both informers' handlers
+        {"pkg": "pkg/scheduler/plugins/reservation", "test": "TestVerifC19Reservation", "family": "Reservation", "uses_script": False,
+         "trace": {"module": "ReservationTrace", "cfg": "Trace.cfg"}},
     ],
     "trace": {"module": "CodecTrace", "cfg": "Trace_Codec.cfg"},
     "signature": sig,
